@@ -103,7 +103,7 @@ def name_length_choices(nnames, tier):
 
 
 def cases(tier, seed):
-    out = []
+    out = [('loader_exclusion_regex', {}, {}, {'gen': 'c06re'})]
     qlens = (1, 2, 3) if tier != 'quick' else (2, 3)
     for ops, nn in skeletons(tier):
         for lens in name_length_choices(nn, tier):
@@ -260,6 +260,9 @@ def run_real(ops, names, q, CONFS, HOOKABLE):
 
 
 def run_case(prop, name, sk, confkw, tier, src):
+    if src.get('gen') == 'c06re':
+        from . import c06re
+        return c06re.run_case(prop, name, sk, confkw, tier, src)
     out = CaseOut(name, confkw)
     t0 = time.time()
     try:
